@@ -895,10 +895,8 @@ bn_digit_egcd(bn_digit_t a, bn_digit_t b, bn_digit_t *ax, bn_digit_t *by) {
 	}
 	if (0 == b)
 		goto ok_exit; /* return (a, x = 1, y = 0); */
-	if (a == b) {
-		y_prev = 1;
-		goto ok_exit;  /* return (a, x = 1, y = 1); */
-	}
+	if (a == b)
+		goto ok_exit;  /* return (a, x = 1, y = 0): a*1 + a*0 = a. */
 	if (a < b) {
 		bn_digit_swap(a, b);
 		bn_digit_swap(x, y);
@@ -1706,7 +1704,8 @@ bn_calc_digits(bn_p bn) {
 
 	if (NULL == bn)
 		return (0);
-	bn->digits = bn_digits_calc_digits(bn->num, bn->count);
+	/* Only inside digits: storage above is not zeroed (lazy). */
+	bn->digits = bn_digits_calc_digits(bn->num, MIN(bn->digits, bn->count));
 	return (bn->digits);
 }
 /* Return: count bits. */
@@ -1943,6 +1942,7 @@ bn_import_le_hex(bn_p bn, const uint8_t *buf, size_t buf_size) {
 	BN_PREFETCH_BN_DATA(bn);
 	bn_init_digits__int(bn, bn->count);
 	BN_RET_ON_ERR(bn_digits_import_le_hex(bn->num, bn->count, buf, buf_size));
+	bn->digits = bn->count; /* All digits was written. */
 	bn_update(bn);
 	return (0);
 }
@@ -1965,6 +1965,7 @@ bn_import_be_hex(bn_p bn, const uint8_t *buf, size_t buf_size) {
 	BN_PREFETCH_BN_DATA(bn);
 	bn_init_digits__int(bn, bn->count);
 	BN_RET_ON_ERR(bn_digits_import_be_hex(bn->num, bn->count, buf, buf_size));
+	bn->digits = bn->count; /* All digits was written. */
 	bn_update(bn);
 	return (0);
 }
@@ -2327,6 +2328,7 @@ bn_exp_digit(bn_p bn, bn_digit_t exp) {
 	if (1 == bn->digits) {
 		switch (bn->num[0]) {
 		case 0: /* 0^exp = 0, exp != 0 */
+			return (0);
 		case 1: /* 1^exp = 1, exp != 0 */
 			return (0);
 		case 2:
@@ -2470,8 +2472,8 @@ n_eq_d:
 /* Euclid's algorithm */
 static inline int
 bn_gcd(bn_p bn, bn_p a, bn_p b) {
-	bn_t tmp;
-	bn_p ta = bn, tb = &tmp;
+	bn_t tmp, tmp2; /* Not in bn: its capacity must stay as declared. */
+	bn_p ta = &tmp2, tb = &tmp;
 
 	BN_POINTER_CHK_EINVAL(bn);
 	BN_POINTER_CHK_EINVAL(a);
@@ -2511,8 +2513,8 @@ bn_gcd(bn_p bn, bn_p a, bn_p b) {
 static inline int
 bn_gcd_bin(bn_p bn, bn_p a, bn_p b) {
 	size_t shift, shift_a, shift_b;
-	bn_t tmp;
-	bn_p ta = bn, tb = &tmp;
+	bn_t tmp, tmp2; /* Not in bn: its capacity must stay as declared. */
+	bn_p ta = &tmp2, tb = &tmp;
 
 	BN_POINTER_CHK_EINVAL(bn);
 	BN_POINTER_CHK_EINVAL(a);
@@ -2552,8 +2554,8 @@ bn_gcd_bin(bn_p bn, bn_p a, bn_p b) {
 		BN_RET_ON_ERR(bn_sub(tb, ta, NULL)); /* Here b >= a. */
 		shift_b = bn_ctz(tb);
 	}
-	BN_RET_ON_ERR(bn_assign(bn, ta));
-	bn_l_shift(bn, shift); /* Restore common factors of 2. */
+	bn_l_shift(ta, shift); /* Restore common factors of 2 (gcd <= a, b: it fit). */
+	BN_RET_ON_ERR(bn_assign(bn, ta)); /* EOVERFLOW if bn is too small. */
 	return (0);
 }
 /* Extended Euclid's algorithm */
@@ -3144,12 +3146,15 @@ bn_mod_exp_digit(bn_p bn, size_t exp, bn_p m, bn_mod_rd_data_p mod_rd_data) {
 
 	BN_POINTER_CHK_EINVAL(bn);
 	BN_POINTER_CHK_EINVAL(m);
-	if (bn->count < m->count || (bn->digits * 2) > bn->count)
+	if (0 != bn_is_zero(m))
+		return (EINVAL);
+	if (bn->count < m->digits || (bn->digits * 2) > bn->count) /* Length of m, not capacity of its object. */
 		return (EOVERFLOW);
 	/* Speed optimizations. */
 	switch (exp) {
 	case 0: /* bn^0 = 1 */
 		BN_RET_ON_ERR(bn_assign_digit(bn, 1));
+		BN_RET_ON_ERR(bn_mod(bn, m, mod_rd_data)); /* m = 1. */
 		return (0);
 	case 1: /* bn^1 = bn */
 		BN_RET_ON_ERR(bn_mod(bn, m, mod_rd_data));
@@ -3166,7 +3171,9 @@ bn_mod_exp_digit(bn_p bn, size_t exp, bn_p m, bn_mod_rd_data_p mod_rd_data) {
 	if (1 == bn->digits) {
 		switch (bn->num[0]) {
 		case 0: /* 0^exp = 0, exp != 0 */
+			return (0);
 		case 1: /* 1^exp = 1, exp != 0 */
+			BN_RET_ON_ERR(bn_mod(bn, m, mod_rd_data)); /* m = 1. */
 			return (0);
 #if 0
 		case 2:
@@ -3196,13 +3203,16 @@ bn_mod_exp(bn_p bn, bn_p exp, bn_p m, bn_mod_rd_data_p mod_rd_data) {
 	BN_POINTER_CHK_EINVAL(bn);
 	BN_POINTER_CHK_EINVAL(exp);
 	BN_POINTER_CHK_EINVAL(m);
-	if (bn->count < m->count)
+	if (0 != bn_is_zero(m))
+		return (EINVAL);
+	if (bn->count < m->digits) /* Length of m, not capacity of its object. */
 		return (EOVERFLOW);
 	/* Speed optimizations. */
 	if (1 == exp->digits) {
 		switch (exp->num[0]) {
 		case 0: /* bn^0 = 1 */
 			BN_RET_ON_ERR(bn_assign_digit(bn, 1));
+			BN_RET_ON_ERR(bn_mod(bn, m, mod_rd_data)); /* m = 1. */
 			return (0);
 		case 1: /* bn^1 = bn */
 			BN_RET_ON_ERR(bn_mod(bn, m, mod_rd_data));
@@ -3217,7 +3227,9 @@ bn_mod_exp(bn_p bn, bn_p exp, bn_p m, bn_mod_rd_data_p mod_rd_data) {
 	if (1 == bn->digits) {
 		switch (bn->num[0]) {
 		case 0: /* 0^exp = 0, exp != 0 */
+			return (0);
 		case 1: /* 1^exp = 1, exp != 0 */
+			BN_RET_ON_ERR(bn_mod(bn, m, mod_rd_data)); /* m = 1. */
 			return (0);
 #if 0
 		case 2:
@@ -3230,6 +3242,7 @@ bn_mod_exp(bn_p bn, bn_p exp, bn_p m, bn_mod_rd_data_p mod_rd_data) {
 	/* Calculation. */
 	BN_RET_ON_ERR(bn_assign_init(&base, bn));
 	BN_RET_ON_ERR(bn_assign_digit(bn, 1));
+	BN_RET_ON_ERR(bn_mod(bn, m, mod_rd_data)); /* m = 1 (and exp = 0: no loop). */
 	BN_PREFETCH_BN_DATA(exp);
 	bits = bn_calc_bits(exp);
 	for (i = 0; i < bits; i ++) {
@@ -3339,6 +3352,8 @@ bn_mod_inv2(bn_p bn, bn_p m, bn_mod_rd_data_p mod_rd_data) {
 
 	/* если u = 1, то d2 - число, обратное bn в кольце вычетов по модулю m
 	иначе - обратного элемента не сущетсвует */
+	if (0 == bn_is_one(pu)) /* gcd(bn, m) != 1: no inverse. */
+		return (EINVAL);
 	if (pd2 != bn) {
 		BN_RET_ON_ERR(bn_assign(bn, pd2));
 	}
@@ -3480,6 +3495,8 @@ bn_mod_div_mont(bn_p bn, bn_p d, bn_p m, bn_mod_rd_data_p mod_rd_data __unused) 
 			bn_r_shift(&v, 1);
 		}
 	}
+	if (0 == bn_is_one(&a)) /* a = b = gcd(d, m) != 1: can not divide. */
+		return (EINVAL);
 
 	return (0);
 }
@@ -3533,7 +3550,7 @@ bn_mod_small(bn_p bn, bn_p m, bn_mod_rd_data_p mod_rd_data __unused) {
 	BN_POINTER_CHK_EINVAL(bn);
 	BN_POINTER_CHK_EINVAL(m);
 
-	while (bn_cmp(bn, m) > 0) {
+	while (bn_cmp(bn, m) >= 0) { /* bn == m: 0. */
 		BN_RET_ON_ERR(bn_sub(bn, m, NULL));
 	}
 
@@ -3577,6 +3594,7 @@ static inline int
 bn_mod_sqrt(bn_p bn, bn_p m, bn_mod_rd_data_p mod_rd_data) {
 	bn_t tm, tm2, orig;
 	size_t bits;
+	int lgndr;
 
 	BN_POINTER_CHK_EINVAL(bn);
 	BN_POINTER_CHK_EINVAL(m);
@@ -3586,7 +3604,10 @@ bn_mod_sqrt(bn_p bn, bn_p m, bn_mod_rd_data_p mod_rd_data) {
 	BN_RET_ON_ERR(bn_mod(bn, m, mod_rd_data));
 	if (0 != bn_is_zero(bn) || 0 != bn_is_one(bn))
 		return (0);
-	if (-1 == bn_mod_legendre(bn, m, mod_rd_data))
+	lgndr = bn_mod_legendre(bn, m, mod_rd_data);
+	if (-1 > lgndr || 1 < lgndr)
+		return (lgndr); /* Error. */
+	if (-1 == lgndr)
 		return (-1);
 	BN_RET_ON_ERR(bn_assign_init(&orig, bn)); /* Save bn for checking. */
 	if (3 == (m->num[0] & 3)) { /* Is m mod 4 == 3? */
@@ -3627,7 +3648,10 @@ bn_mod_sqrt(bn_p bn, bn_p m, bn_mod_rd_data_p mod_rd_data) {
 		bits = (2 + (bits * bits));
 		do {
 			bn_add_digit(&b, 1, NULL);
-		} while (-1 != bn_mod_legendre(&b, m, mod_rd_data) && 0 != --bits);
+			lgndr = bn_mod_legendre(&b, m, mod_rd_data);
+			if (-1 > lgndr || 1 < lgndr)
+				return (lgndr); /* Error, not "residue". */
+		} while (-1 != lgndr && 0 != --bits);
 		if (0 == bits)
 			return (-1);
 		/* Find bits and t, such as (m - 1) = 2^bits*t, where t is odd */
